@@ -57,7 +57,29 @@ def run(tier, seed):
                     what = "/".join(k.split("/")[:2]) if not k.startswith("prover") else "prover/" + k.split("/")[-1]
                     v.violation("par/differs/%s" % what, "result '%s' of the concurrent build with %d threads (repetition %d) differs from the single-threaded result" % (k, th, rep),
                                 {"key": k, "threads": th, "serial": x, "concurrent": y})
-    log("[replay] %d results x %d concurrent runs (pools %s x %d repetitions) compared with the serial build" % (len(base["results"]), runs, pools, reps))
+    # every pool size 1..64 for the cheap operations (transforms, twiddles, power series, batch inversion, Merkle trees around the
+    # thresholds): the decompositions depend on the pool size through next_pow2(threads), so sampling pool sizes is not enough
+    rc, out, err = vlib.run_harness(ser, ["par", "--light"], timeout=600)
+    if rc != 0:
+        raise vlib.ToolError("par --light (serial) rc=%s: %s" % (rc, err[-300:]))
+    lbase = json.loads(out)["results"]
+
+    def light(th):
+        rc, out, err = vlib.run_harness(con, ["par", "--light"], timeout=600, env={"RAYON_NUM_THREADS": str(th)})
+        return th, rc, (json.loads(out)["results"] if rc == 0 else err[-300:])
+
+    for th, rc2, got in vlib.parallel(light, list(range(1, 65)), max_workers=4):
+        if rc2 != 0:
+            v.violation("par/crash/threads%d" % th, "the concurrent build fails (exit %s) with %d threads: %s" % (rc2, th, got), {"threads": th})
+            continue
+        runs += 1
+        for k, x in lbase.items():
+            compared += 1
+            if got.get(k) != x:
+                v.violation("par/differs/%s" % "/".join(k.split("/")[:2]), "result '%s' of the concurrent build with %d threads differs from the single-threaded result" % (k, th),
+                            {"key": k, "threads": th, "serial": x, "concurrent": got.get(k), "light": True})
+    log("[replay] %d results x %d concurrent runs (pools %s x %d repetitions, and %d cheap results for every pool size 1..64) compared with the serial build" % (
+        len(base["results"]), runs, pools, reps, len(lbase)))
     rc = v.finish()
     vlib.write_evidence(PID, tier, seed, "model_checking", {
         "states": r.distinct, "transitions": r.generated, "traces_validated_against_impl": runs,
